@@ -57,8 +57,9 @@ ERRS = None  # filled lazily (needs networkx)
 def _errs():
     global ERRS
     if ERRS is None:
-        import networkx as nx
-        ERRS = (nx.NetworkXError, nx.NetworkXUnfeasible, nx.NodeNotFound, KeyError, RuntimeError, ValueError, TypeError)
+        # whatever the class (NetworkXError, KeyError, RuntimeError 'dictionary changed size', AttributeError, RecursionError ...):
+        # an error outcome of the real code, never a harness error
+        ERRS = (Exception,)
     return ERRS
 
 
